@@ -155,4 +155,39 @@ void runC12Api(const Opts& o, long idx, CaseLog& log) {
     log.line("RES %ld ok checked=%ld bad=%ld", idx, checked, bad);
 }
 
+
+// C16: load a damaged file under logical budgets.  --list lines: <base path>|<mutation>, mutation = none | trunc=N | set=off:val,off:val... | zero=N (all-zero file of N bytes)
+void runDamage(const Opts& o, long idx, CaseLog& log) {
+    std::vector<std::string> specs = readLines(o.list);
+    if (idx < 0 || (size_t)idx >= specs.size()) throw std::runtime_error("damage: index beyond list");
+    const std::string& spec = specs[idx];
+    size_t bar = spec.find('|'); std::string base = spec.substr(0, bar), mut = bar == std::string::npos ? "none" : spec.substr(bar + 1);
+    std::string bytes = readFileBytes(base);
+    if (mut.compare(0, 6, "trunc=") == 0) { size_t n = (size_t)atol(mut.c_str() + 6); if (n < bytes.size()) bytes.resize(n); }
+    else if (mut.compare(0, 5, "zero=") == 0) { bytes.assign((size_t)atol(mut.c_str() + 5), '\0'); }
+    else if (mut.compare(0, 4, "set=") == 0) { const char* p = mut.c_str() + 4; while (*p) { char* e; long off = strtol(p, &e, 10); if (*e != ':') break; long val = strtol(e + 1, &e, 10); if (off >= 0 && (size_t)off < bytes.size()) bytes[(size_t)off] = (char)val; p = *e == ',' ? e + 1 : e; } }
+    char fp[700]; snprintf(fp, sizeof fp, "%s/dmg_%ld.c3d", o.out.c_str(), idx);
+    writeFileBytes(fp, bytes);
+    unsigned long size = bytes.size();
+    hookReset();
+    g_hook.maxReads = 256 + 4 * size; g_hook.maxReadsAfterFail = (unsigned long)o.geti("max_reads_after_fail", 1024);
+    g_hook.maxAllocBytes = (8ul << 20) + 400 * size; g_hook.maxSingleAlloc = (64ul << 20) + 400 * size;
+    installAllocHooks();
+    g_hook.budgetOn = true;
+    std::unique_ptr<ezc3d::c3d> c; Outcome oc;
+    log.pre("load", mut);
+    VF_TRY(oc, c.reset(new ezc3d::c3d(fp)));
+    g_hook.budgetOn = false;
+    unlink(fp);
+    if (oc.threw) { log.line("RES %ld threw %s reads=%lu afterFail=%lu alloc=%lu", idx, oc.cls.c_str(), g_hook.reads, g_hook.readsAfterFail, g_hook.allocBytes); }
+    else {
+        // the returned object must be usable: walk it through the const accessors (bounded) and destroy it
+        size_t np = 0; for (size_t g = 0; g < c->parameters().nbGroups(); ++g) np += c->parameters().group(g).nbParameters();
+        size_t nf = c->data().nbFrames(); size_t walked = 0;
+        for (size_t f = 0; f < nf && f < 3; ++f) { SFrame s = takeFrame(c->data().frame(f)); walked += s.pts.size(); }
+        log.line("RES %ld ok reads=%lu afterFail=%lu alloc=%lu frames=%zu params=%zu", idx, g_hook.reads, g_hook.readsAfterFail, g_hook.allocBytes, nf, np + walked * 0);
+        log.pre("destroy"); c.reset();
+    }
+}
+
 }  // namespace vf
